@@ -20,7 +20,10 @@ RULE = ('(a) every callable / class shape of a fixed table {function, functools.
         'and after (enumerated completely on every run); (b) histories of valid and rejected registrations (invalid name, '
         'invalid module, a different object under an existing full name, unknown allow/deny entries, both lists, wrong list '
         'type, re-registration inside / outside interactive mode and after the interactive_mode() block ended) with the '
-        'registry observed after each. non-trivial = a rejected registration after an accepted one, or a class shape with '
+        'registry observed after each; (c) programs over {enter / exit_interactive_mode, interactive_mode() blocks (nested, '
+        'left by an exception), attempts to re-register a taken name}; (d) a module-level function / class defined anew under '
+        'its qualified name with other parameter names after Gin looked at the first, registered with a list naming an old / '
+        'a new parameter (enumerated completely). non-trivial = a rejected registration after an accepted one, or a class shape with '
         'constructor logic; distinct = canonical case')
 TRUSTED_BASE = ['Lean 4.33 kernel', 'axioms ⊆ {propext, Classical.choice, Quot.sound}', 'JSON glue (Gin/Drv)',
                 'harness props/c13.py / gindom.py', 'metaclass / type() creation, functools.wraps, pickle are CPython\'s']
@@ -288,8 +291,275 @@ def gen_history(rng):
   return {'dom': 'gin', 'kind': 'history', 'ops': ops}
 
 
+# ---------------------------------------------------------------- interactive mode as an ordering of operations
+
+def gen_imode_steps(rng, depth, budget):
+  """Steps over {enter_interactive_mode, exit_interactive_mode, an interactive_mode() block (nested, left normally or by
+  an exception), an attempt to register a different object under a taken full name}."""
+  steps = []
+  for _ in range(rng.randint(1, 4)):
+    if budget[0] <= 0:
+      break
+    budget[0] -= 1
+    r = rng.random()
+    if r < 0.4:
+      steps.append(['attempt', rng.randrange(2), rng.choice(['register', 'external', 'configurable'])])
+    elif r < 0.55:
+      steps.append(['enter'])
+    elif r < 0.65:
+      steps.append(['exit'])
+    elif depth < 3:
+      steps.append(['block', gen_imode_steps(rng, depth + 1, budget), rng.random() < 0.25])
+      if rng.random() < 0.7:    # what holds right after the block was left is what the property speaks about
+        steps.append(['attempt', rng.randrange(2), rng.choice(['register', 'external', 'configurable'])])
+  return steps
+
+
+def gen_imode(rng):
+  r = rng.random()
+  att = lambda: ['attempt', rng.randrange(2), rng.choice(['register', 'external', 'configurable'])]
+  if r < 0.15:     # the mode switched on by hand earlier, then a block
+    prog = [['enter'], ['block', [att()] if rng.random() < 0.7 else [], rng.random() < 0.3], att(), ['exit'], att()]
+  elif r < 0.3:    # a block inside a block: the inner one ends the mode
+    prog = [['block', [['block', [att()] if rng.random() < 0.5 else [], rng.random() < 0.3], att()], False], att()]
+  else:
+    prog = gen_imode_steps(rng, 0, [rng.randint(4, 12)])
+  return {'dom': 'gin', 'kind': 'imode', 'prog': prog, 'ops': []}
+
+
+class _Leave(Exception):
+  pass
+
+
+def run_imode(case):
+  gin = core.fresh_gin()
+  made = [0]
+  obs = []
+
+  def make(serial):
+    def thing(a=1):
+      return [serial, a]
+    return thing
+
+  def reg(api, name, fn):
+    if api == 'register':
+      gin.register(name, module='im')(fn)
+    elif api == 'external':
+      gin.external_configurable(fn, name=name, module='im')
+    else:
+      gin.configurable(name, module='im')(fn)
+
+  names = ['thing', 'other']
+  for n in names:
+    reg('register', n, make(made[0]))
+    made[0] += 1
+
+  def held():
+    out = []
+    for n in names:
+      try:
+        out.append(gin.get_configurable('im.' + n)()[0])
+      except Exception as e:  # pylint: disable=broad-except
+        out.append(f'raised {type(e).__name__}')
+    return out
+
+  def run(steps):
+    for st in steps:
+      if st[0] == 'enter':
+        gin.enter_interactive_mode()
+      elif st[0] == 'exit':
+        gin.exit_interactive_mode()
+      elif st[0] == 'attempt':
+        serial = made[0]
+        made[0] += 1
+        try:
+          reg(st[2], names[st[1]], make(serial))
+          res = 'accepted'
+        except ValueError:
+          res = 'rejected'
+        except Exception as e:  # pylint: disable=broad-except
+          res = f'raised {type(e).__name__}'
+        obs.append([res, held()])
+      else:
+        try:
+          with gin.config.interactive_mode():
+            run(st[1])
+            if st[2]:
+              raise _Leave()
+        except _Leave:
+          pass
+  try:
+    run(case['prog'])
+  except Exception as e:  # pylint: disable=broad-except
+    return {'error': f'{type(e).__name__}: {e}'[:200], 'obs': obs}
+  return {'obs': obs}
+
+
+def imode_expected(prog):
+  """The property's reading: the mode is on after enter_interactive_mode() and inside an interactive_mode() block; it is
+  off after exit_interactive_mode() and as soon as a block was left, whichever way. A different object under a taken
+  name is accepted exactly while the mode is on; a rejected attempt leaves the holder of the name in place."""
+  state = {'on': False, 'held': [0, 1], 'made': 2}
+  want = []
+
+  def run(steps):
+    for st in steps:
+      if st[0] == 'enter':
+        state['on'] = True
+      elif st[0] == 'exit':
+        state['on'] = False
+      elif st[0] == 'attempt':
+        serial = state['made']
+        state['made'] += 1
+        if state['on']:
+          state['held'][st[1]] = serial
+        want.append(['accepted' if state['on'] else 'rejected', list(state['held'])])
+      else:
+        state['on'] = True
+        run(st[1])
+        state['on'] = False
+  run(prog)
+  return want
+
+
+# ---------------------------------------------------------------- a definition replaced under its qualified name
+
+REDEF_SRC = {
+    'fn': 'def step({p}=1, shared=0):\n  return ("{v}", {p}, shared)\n',
+    'init': 'class Model:\n  def __init__(self, {p}=1, shared=0):\n    self.got = ("{v}", {p}, shared)\n',
+    'new': ('class Model:\n  def __new__(cls, {p}=1, shared=0):\n    self = object.__new__(cls)\n'
+            '    self.got = ("{v}", {p}, shared)\n    return self\n'),
+}
+
+
+def redefine_cases():
+  """A module-level function / class is looked at by Gin (registered with a list, bound, or called), then defined anew
+  under the same module and qualified name with another parameter name (a notebook cell run again, a module reloaded);
+  the new object is registered with a list that names a parameter of the old / of the new definition."""
+  out = []
+  for obj in ('fn', 'init', 'new'):
+    for api in ('configurable', 'register', 'external'):
+      for which in ('allow', 'deny'):
+        for seen_by in ('list', 'bind', 'call'):
+          for names in (('alpha', 'beta'), ('width', 'depth')):
+            for listed in ('old', 'new'):
+              out.append({'dom': 'gin', 'kind': 'redefine', 'obj': obj, 'api': api, 'which': which, 'seen_by': seen_by,
+                          'names': list(names), 'listed': listed, 'same_name': False, 'ops': []})
+        # inside interactive mode, under the very name of the first definition: a refused attempt keeps the first
+        out.append({'dom': 'gin', 'kind': 'redefine', 'obj': obj, 'api': api, 'which': which, 'seen_by': 'list',
+                    'names': ['alpha', 'beta'], 'listed': 'old', 'same_name': True, 'ops': []})
+  return out
+
+
+def run_redefine(case):
+  gin = core.fresh_gin()
+  old, new = case['names']
+  leaf = 'step' if case['obj'] == 'fn' else 'Model'
+  g = {'__name__': 'c13_redef_mod'}
+
+  def reg(o, name, **kw):
+    if case['api'] == 'configurable':
+      return gin.configurable(name, module='rd', **kw)(o)
+    if case['api'] == 'register':
+      gin.register(name, module='rd', **kw)(o)
+      return gin.get_configurable(o)
+    return gin.external_configurable(o, name=name, module='rd', **kw)
+
+  def got(r):
+    return list(r) if case['obj'] == 'fn' else list(r.got)
+  facts = {}
+  try:
+    exec(REDEF_SRC[case['obj']].format(p=old, v='v1'), g)  # pylint: disable=exec-used
+    first = g[leaf]
+    kw = {('allowlist' if case['which'] == 'allow' else 'denylist'): [old]} if case['seen_by'] == 'list' else {}
+    c1 = reg(first, 'first', **kw)
+    if case['seen_by'] == 'bind':
+      gin.bind_parameter('rd.first.' + old, 5)
+    if case['seen_by'] in ('bind', 'call'):
+      facts['first_works'] = got(c1()) == ['v1', 5 if case['seen_by'] == 'bind' else 1, 0]
+  except Exception as e:  # pylint: disable=broad-except
+    return {'error': f'first definition: {type(e).__name__}: {e}'[:200]}
+  exec(REDEF_SRC[case['obj']].format(p=new, v='v2'), g)  # pylint: disable=exec-used
+  second = g[leaf]
+  assert second is not first and second.__qualname__ == first.__qualname__ and second.__module__ == first.__module__
+  listed = old if case['listed'] == 'old' else new
+  name2 = 'first' if case['same_name'] else 'second'
+  try:
+    if case['same_name']:
+      with gin.config.interactive_mode():
+        c2 = reg(second, name2, **{('allowlist' if case['which'] == 'allow' else 'denylist'): [listed]})
+    else:
+      c2 = reg(second, name2, **{('allowlist' if case['which'] == 'allow' else 'denylist'): [listed]})
+    facts['second'] = 'accepted'
+  except ValueError:
+    facts['second'] = 'rejected'
+  except Exception as e:  # pylint: disable=broad-except
+    facts['second'] = f'raised {type(e).__name__}: {e}'[:160]
+  try:
+    gin.get_configurable('rd.second')
+    facts['second_registered'] = True
+  except ValueError:
+    facts['second_registered'] = False
+  try:
+    facts['first_holder'] = got(gin.get_configurable('rd.first')())[0]
+  except Exception as e:  # pylint: disable=broad-except
+    facts['first_holder'] = f'raised {type(e).__name__}'
+  if facts['second'] == 'accepted' and case['listed'] == 'new':
+    # the new definition's own parameter is configurable (allowlisted) or closed (denylisted); the shared one the reverse
+    res = {}
+    for pname in (new, 'shared'):
+      try:
+        gin.bind_parameter(f'rd.{name2}.{pname}', 7)
+        res[pname] = 'bound'
+      except ValueError:
+        res[pname] = 'refused'
+      except Exception as e:  # pylint: disable=broad-except
+        res[pname] = f'raised {type(e).__name__}'
+    facts['bindable'] = res
+    try:
+      facts['delivered'] = got(c2())
+      facts['caller_wins'] = got(c2(3, 4))     # positional values go to the new definition's parameters
+    except Exception as e:  # pylint: disable=broad-except
+      facts['delivered'] = f'raised {type(e).__name__}: {e}'[:160]
+  return facts
+
+
+def redefine_oracle(case, f):
+  old, new = case['names']
+  tag = (f'redefine/{case["obj"]}/{case["api"]}/{case["which"]}list names {case["listed"]} parameter/'
+         f'first seen by {case["seen_by"]}{"/same name" if case["same_name"] else ""}')
+  if 'error' in f:
+    return f'{tag}: {f["error"]}'
+  if f.get('first_works') is False:
+    return f'{tag}: the first definition did not receive its binding'
+  if case['listed'] == 'old':
+    # `old` is not a parameter of the object being registered
+    if f['second'] != 'rejected':
+      return (f'{tag}: a list naming {old!r} was {f["second"]} for a definition whose parameters are ({new}, shared); '
+              f'registered: {f["second_registered"]}')
+    if f['second_registered']:
+      return f'{tag}: the rejected registration left rd.second registered'
+    if f['first_holder'] != 'v1':
+      return f'{tag}: after the rejected registration rd.first is held by {f["first_holder"]}'
+    return None
+  if f['second'] != 'accepted':
+    return f'{tag}: a list naming {new!r}, a parameter of the definition being registered, was {f["second"]}'
+  want_bind = ({new: 'bound', 'shared': 'refused'} if case['which'] == 'allow' else {new: 'refused', 'shared': 'bound'})
+  if f.get('bindable') != want_bind:
+    return f'{tag}: bind_parameter on ({new}, shared) gave {f.get("bindable")}, the list implies {want_bind}'
+  want = ['v2', 7, 0] if case['which'] == 'allow' else ['v2', 1, 7]
+  if f.get('delivered') != want:
+    return f'{tag}: the registry version delivered {f.get("delivered")}, expected {want}'
+  if f.get('caller_wins') != ['v2', 3, 4]:
+    return f'{tag}: called with (3, 4) the registry version delivered {f.get("caller_wins")}'
+  return None
+
+
 def gen_cases(rng, tier, boost=1):
   yield from shape_cases()
+  yield from redefine_cases()
+  for _ in range((150 if tier == 'quick' else 3000) * boost):
+    yield gen_imode(rng)
   for _ in range((300 if tier == 'quick' else 8000) * boost):
     yield gen_history(rng)
 
@@ -536,6 +806,10 @@ def rejected_class(gin, api):
 def run_impl(case):
   if case['kind'] == 'shape':
     return {'out': [], 'facts': run_shape(case)}
+  if case['kind'] == 'imode':
+    return {'out': [], 'facts': run_imode(case)}
+  if case['kind'] == 'redefine':
+    return {'out': [], 'facts': run_redefine(case)}
   out = gindom.run_impl(case)
   # interactive_mode() as a block ends when the block exits
   gin = core.fresh_gin()
@@ -556,7 +830,7 @@ def to_driver(case, impl):
 
 
 def compare(case, impl, model):
-  if case['kind'] == 'shape':
+  if case['kind'] != 'history':
     return None
   return gindom.compare(case, impl, model)
 
@@ -567,6 +841,19 @@ def oracle(case, impl):
       return f'interactive_mode() block: inside / after normal exit / after exit by exception = {impl.get("interactive_block")}'
     return refmodel.check_history(case, impl, {'register', 'registry', 'interactive'})
   f = impl['facts']
+  if case['kind'] == 'redefine':
+    return redefine_oracle(case, f)
+  if case['kind'] == 'imode':
+    want = imode_expected(case['prog'])
+    if 'error' in f:
+      return f'imode {case["prog"]}: {f["error"]}'
+    for k, (a, b) in enumerate(zip(f['obs'], want)):
+      if a != b:
+        return (f'imode {case["prog"]}: attempt #{k} to register a different object under a taken name [outcome, '
+                f'holders of im.thing / im.other]: {a}; interactive mode (ending with its block) implies {b}')
+    if len(f['obs']) != len(want):
+      return f'imode {case["prog"]}: {len(f["obs"])} attempts observed, {len(want)} expected'
+    return None
   tag = f'{case["shape"]}/{case["api"]}/{"scoped" if case["scoped"] else "unscoped"}'
   if 'error' in f:
     return f'{tag}: {f["error"]}'
@@ -590,6 +877,11 @@ def oracle(case, impl):
 def nontrivial(case, impl):
   if case['kind'] == 'shape':
     return case['shape'] not in ('fn', 'builtin', 'neither')
+  if case['kind'] == 'redefine':
+    return True
+  if case['kind'] == 'imode':
+    outcomes = {o[0] for o in impl['facts'].get('obs', [])}
+    return {'accepted', 'rejected'} <= outcomes
   seen_ok = False
   for op, res in zip(case['ops'], impl['out']):
     if op['op'] == 'register':
@@ -609,7 +901,19 @@ def tally(stats, case, impl):
         stats[k] = stats.get(k, 0) + 1
 
 
+def _imode_shrinks(steps):
+  for k in range(len(steps)):
+    yield steps[:k] + steps[k + 1:]
+    if steps[k][0] == 'block':
+      for sub in _imode_shrinks(steps[k][1]):
+        yield steps[:k] + [['block', sub, steps[k][2]]] + steps[k + 1:]
+
+
 def shrink(case):
+  if case['kind'] == 'imode':
+    for prog in _imode_shrinks(case['prog']):
+      yield dict(case, prog=prog)
+    return
   if case['kind'] != 'history':
     return
   ops = case['ops']
